@@ -17,7 +17,7 @@ RULE = (
     "(a) every forbidden construct named by the property (attribute access, method call, call of an unlisted name, double underscore, lambda, list/set/dict/generator comprehension; instances derived "
     "from the running interpreter's ast module so that every ast.expr subclass is classified) embedded in EVERY allowed context (each operand slot of each operator/comparison, each argument slot of each "
     "whitelisted function, numerator and denominator of a division) nested to depth 2 (quick) / 3 (thorough): parse_function must raise and leave the scratch directory empty; "
-    "(b) all arithmetic expressions up to depth 2/3 over the whitelisted operators and functions are accepted, evaluate like ordinary real arithmetic (0/x = 0/0 = 0) on scalars and arrays, and report exactly their free names. "
+    "(b) arithmetic expressions over the whitelisted operators and functions - complete at depth <= 1, complete unary forms and a fixed pool of binary combinations at depth 2 / 3 (thorough: every depth-1 expression as an operand at depth 2), see exprs() - are accepted, evaluate like ordinary real arithmetic (0/x = 0/0 = 0) on scalars and arrays, and report exactly their free names. "
     "(c) plot specifications (evaluate_plot_string): lists / dicts of strings are evaluated as literals, every forbidden construct and every non-string element inside every list / dict wrapper is rejected. "
     "distinct_nontrivial counts distinct expression strings with nesting depth >= 1."
 )
@@ -117,6 +117,9 @@ def cases(tier):
                     yield dict(kind="reject", cls=cls, src=src, depth=d, first=k)
     for d in range(0, depth + 1):
         yield dict(kind="semantics", depth=d, tier=tier)
+    if tier == "thorough":
+        for sh in range(32):
+            yield dict(kind="semantics", depth=2, tier=tier, full=True, shard=[sh, 32])
     yield dict(kind="selectors")
     yield dict(kind="plot_strings")
 
@@ -171,8 +174,10 @@ def is_truth(e):
         return False
 
 
-def exprs(depth):
-    """all expressions of exactly the given nesting depth (memoised by level), as (string, reference-lambda source)"""
+def exprs(depth, full=False):
+    """expressions of exactly the given nesting depth.  Depth 1 is complete (every operator / function over every pair of leaves).  From depth 2 on,
+    unary forms are complete and binary forms combine a fixed stride-selected subset of ~60 expressions of the previous level (all of them when
+    full=True) with a pool of 4 leaves + 6 depth-1 expressions, in both operand orders."""
     levels = [list(LEAVES)]
     for d in range(1, depth + 1):
         prev_all = [e for lv in levels for e in lv]
@@ -187,7 +192,7 @@ def exprs(depth):
                 cur.append(f"{f}({e})")
         # binary: at least one side from the last level; the other from a small pool to bound the product
         pool = LEAVES[:4] + (levels[1][:6] if len(levels) > 1 else [])
-        for e in last if d == 1 else last[:: max(1, len(last) // 60)]:
+        for e in last if (d == 1 or (full and d == depth)) else last[:: max(1, len(last) // 60)]:
             for o in pool if d > 1 else LEAVES:
                 truth = is_truth(e) or is_truth(o)
                 for op in BINOPS + CMPS:
@@ -265,7 +270,10 @@ def run_semantics(case):
     n = 0
     warnings.filterwarnings("ignore")
     np.seterr(all="ignore")
-    for s in exprs(case["depth"]):
+    sh = case.get("shard")
+    for k, s in enumerate(exprs(case["depth"], full=bool(case.get("full")))):
+        if sh and k % sh[1] != sh[0]:
+            continue
         n += 1
         try:
             fcn, deps = parse(s)
@@ -318,13 +326,15 @@ def run_semantics(case):
                 illc = ~(np.isclose(x, x2, rtol=1e-13, atol=0, equal_nan=True) | (x == x2))
             except Exception:
                 illc = np.zeros(x.shape, dtype=bool)
-            ok = np.isclose(g, x, rtol=1e-12, atol=0, equal_nan=True) | (g == x) | np.isnan(x) | illc  # nan in the reference = undefined in real arithmetic: not compared
+            # nan in the reference = undefined in real arithmetic: not compared.  An infinite reference (division of a non-zero number by zero, overflow) is
+            # matched by an infinity of either sign or nan: the sign depends on whether a literal 0 is the integer 0 or the float -0.0 after a unary minus
+            ok = np.isclose(g, x, rtol=1e-12, atol=0, equal_nan=True) | (g == x) | np.isnan(x) | illc | (np.isinf(x) & ~np.isfinite(g))
             if not ok.all():
                 vs.append(V("wrong-value", f"{s!r} with {({k: (v.tolist() if hasattr(v, 'tolist') else v) for k, v in e2.items()})}: got {g.tolist()} expected {x.tolist()}", dict(expr=s)))
                 break
         if len(vs) > 3:
             break
-    return dict(states=0, transitions=0, nontrivial=case["depth"] >= 1, violations=vs[:4], counters=dict(semantic_exprs=n, semantic_evals=n * len(ENVS)), digest=f"sem-{case['depth']}-{n}")
+    return dict(states=0, transitions=0, nontrivial=case["depth"] >= 1, violations=vs[:4], counters=dict(semantic_exprs=n, semantic_evals=n * len(ENVS)), digest=f"sem-{case['depth']}-{case.get('shard')}-{n}")
 
 
 def run_classify(case):
